@@ -27,6 +27,10 @@ def run(m, tier):
     results.append(reader_interp.stream_rule(m, "C12.R10", tier))
     from rules import order_rules as _or_gb
     results.append(_or_gb.giveback_complete_rule(m, "C12.R11"))
+    from rules import C13
+    results.append(retag(C13.r1_search(m), "C12.R12", "the statements of an included file are part of the item stream: the reader created for it gets "
+                         "the path, the include directories and every reader option of the including reader, is read first and dropped when "
+                         "exhausted (shared with C13.R1)"))
     expl = ("Decides structural clauses of C12: the item queue discipline (who pushes/pops which end, ';' parts reversed before being "
             "pushed to the front, give-back forwarded to the active include reader, no access to another reader's queue); every "
             "look-ahead is undone (typestate of items and nodes on all paths of every reader-level matcher); the physical line counter "
